@@ -5,9 +5,9 @@
 package marker_options
 
 import (
-	"io"
 	"errors"
 	"fmt"
+	"io"
 	"sort"
 	"strings"
 	"sync/atomic"
@@ -194,10 +194,10 @@ type crashImage struct {
 
 type markerRun struct {
 	healthCloser io.Closer
-	p       MarkerPlan
-	mem     *vfs.MemFS
-	fs      vfs.FS
-	markers []*atomicfs.Marker
+	p            MarkerPlan
+	mem          *vfs.MemFS
+	fs           vfs.FS
+	markers      []*atomicfs.Marker
 	// acc[m] is the set of values a crash image (or a live read) may show for
 	// marker m right now.
 	acc []map[string]struct{}
